@@ -16,9 +16,10 @@ static GLOBAL: VAlloc = VAlloc;
 
 fn quick_cases(prop: u32) -> u64 {
     match prop {
-        13 => 12_000,
-        18 => 16_000,
-        _ => 40_000,
+        13 => 30_000,
+        18 => 40_000,
+        16 => 100_000,
+        _ => 160_000,
     }
 }
 
@@ -140,7 +141,7 @@ fn cmd_replay(a: &[String]) {
 fn cmd_run(a: &[String]) {
     let prop = parse_prop(&a[0]);
     let tier = a.get(1).map(|s| s.as_str()).unwrap_or("quick").to_string();
-    let mut cases = quick_cases(prop) * if tier == "thorough" { 25 } else { 1 };
+    let mut cases = quick_cases(prop) * if tier == "thorough" { 12 } else { 1 };
     let mut threads = std::thread::available_parallelism().map(|n| n.get()).unwrap_or(8).min(16);
     let mut write_evidence = true;
     let mut i = 2;
